@@ -14,7 +14,6 @@
 package c11
 
 import (
-	"encoding/json"
 	"fmt"
 	"hash/fnv"
 	"regexp"
@@ -23,8 +22,8 @@ import (
 	"sync"
 	"testing"
 
-	"pgregory.net/rapid"
 	yaml3 "gopkg.in/yaml.v3"
+	"pgregory.net/rapid"
 
 	"verif/internal/vk"
 )
@@ -303,6 +302,7 @@ func evalMutant(c mutCase) (o outcome) {
 			}
 			lab := attribute(a, ixJ, l)
 			o.label("position:%s", lab)
+			o.label("precision:%s:%s", a.Label, lab)
 			if lab == "unattributed" || lab == "not-at-a-node-start" {
 				cands := ixJ.at(l.Line, l.Col)
 				where := "?"
@@ -443,9 +443,68 @@ func drawMutant(bases []*baseSpec) func(t *rapid.T) mutCase {
 
 const miniSpec = `{"openapi":"3.0.3","info":{"title":"t","version":"1"},"paths":{"/a/{id}":{"get":{"operationId":"getA","parameters":[{"name":"id","in":"path","required":true,"schema":{"type":"string"}},{"name":"q","in":"query","schema":{"type":"integer","minimum":0,"maximum":10}}],"responses":{"200":{"description":"ok","content":{"application/json":{"schema":{"$ref":"#/components/schemas/Pet"}}}}}}},"/b":{"get":{"operationId":"getB","responses":{"200":{"description":"ok"}}}}},"components":{"schemas":{"Pet":{"type":"object","required":["id"],"properties":{"id":{"type":"integer","format":"int64"},"name":{"type":"string","maxLength":10},"tags":{"type":"array","items":{"type":"string"}}}}}}}`
 
+// miniSpec2 carries the shapes of the known findings: a form body, an object
+// with properties and patternProperties, a deepObject parameter with patternProperties.
+const miniSpec2 = `{"openapi":"3.0.3","info":{"title":"t","version":"1"},"paths":{"/f":{"post":{"operationId":"postF","parameters":[{"name":"flex","in":"query","style":"deepObject","schema":{"type":"object","properties":{"a":{"type":"string"}},"patternProperties":{"^p":{"type":"array","items":{"type":"string"}}}}},{"name":"q","in":"query","schema":{"$ref":"#/components/schemas/Q"}}],"requestBody":{"content":{"application/x-www-form-urlencoded":{"schema":{"type":"object","properties":{"a":{"type":"string"}}}}}},"responses":{"200":{"description":"ok","content":{"application/json":{"schema":{"type":"object","properties":{"id":{"type":"integer"}},"patternProperties":{"^x-":{"type":"string"}}}}}}}}}},"components":{"schemas":{"Q":{"type":"string"}}}}`
+
 func regressionMutants() []mutCase {
+	out := regressionMutantsOf(miniSpec, func(find func(keys ...string) []int, add func(path []int, key bool, fault string, args ...string)) {
+		pa := find("paths", "/a/{id}")
+		pb := find("paths", "/b")
+		pet := find("components", "schemas", "Pet")
+		ref := find("paths", "/a/{id}", "get", "responses", "200", "content", "application/json", "schema", "$ref")
+		refHolder := ref[:len(ref)-1]
+		max := find("paths", "/a/{id}", "get", "parameters", "1", "schema", "maximum")
+		maxLen := find("components", "schemas", "Pet", "properties", "name", "maxLength")
+		// /a%0a% style keys: fixed in 9f821d33 (uri.NormalizeEscapedPath), must stay clean
+		add(pb, true, "escape", "%", "%0a%", "%zz", "%0a%zz", "%e4%b8", "pre:%", "pre:%0a%", "%%", "%2", "%2f%", "%2F", "%25", "%e4%b8%96")
+		add(pa, true, "escape", "%0a%", "%", "pre:%0a%")
+		add(pet, false, "cycle", "replace-self", "allOf-self", "oneOf-self", "anyOf-self", "replace-root", "items-allOf-self")
+		add(refHolder, false, "cycle", "replace-root", "allOf-self")
+		add(ref, false, "cycle", "self", "parent", "grandparent", "root")
+		add(ref, false, "dangling", "missing", "suffix", "empty-frag", "no-hash", "bad-escape", "tilde", "slash-end")
+		add(pet, false, "deep", deepVariants...)
+		add(max, false, "num", "-1", "1e400", "99999999999999999999", "x", "1.5", "-0", "1e-400", "9223372036854775808")
+		add(maxLen, false, "num", "-1", "1e400", "99999999999999999999", "x", "1.5", "-0", "9223372036854775808")
+		add(nil, false, "retype", "seq-wrap", "str", "seq-empty")
+		add(nil, false, "null", "")
+		add(find("paths"), false, "retype", "seq-wrap", "str")
+		add(find("paths"), false, "null", "")
+		add(find("components"), false, "null", "")
+		add(find("components", "schemas"), false, "retype", "seq-wrap")
+		add(find("paths", "/a/{id}", "get", "operationId"), false, "dupname", "")
+		add(find("paths", "/a/{id}", "get", "parameters", "1", "name"), false, "dupname", "")
+		add(pet, true, "empty", "")
+		add(pet, false, "delete", "")
+	})
+	out = append(out, regressionMutantsOf(miniSpec2, func(find func(keys ...string) []int, add func(path []int, key bool, fault string, args ...string)) {
+		op := []string{"paths", "/f", "post"}
+		at := func(more ...string) []int { return find(append(append([]string{}, op...), more...)...) }
+		// known findings (see known_findings.d/C11.json)
+		add(at("requestBody", "content", "application/x-www-form-urlencoded", "schema"), false, "null", "")
+		add(at("requestBody", "content", "application/x-www-form-urlencoded", "schema"), false, "delete", "")
+		add(at("responses", "200", "content", "application/json", "schema", "patternProperties", "^x-"), false, "null", "")
+		add(at("parameters", "0", "schema", "patternProperties", "^p"), false, "cycle", "items-allOf-self", "replace-self")
+		add(find("components", "schemas", "Q"), false, "cycle", "anyOf-self", "oneOf-self", "allOf-self")
+		// neighbours of those shapes
+		add(at("requestBody", "content", "application/x-www-form-urlencoded"), false, "null", "")
+		add(at("requestBody", "content"), false, "null", "")
+		add(at("requestBody"), false, "null", "")
+		add(at("parameters", "0"), false, "null", "")
+		add(at("parameters", "0", "schema"), false, "null", "")
+		add(at("parameters", "0", "schema", "patternProperties"), false, "null", "")
+		add(at("parameters", "0", "schema", "properties", "a"), false, "null", "")
+		add(at("responses", "200", "content", "application/json", "schema", "properties", "id"), false, "null", "")
+		add(at("responses", "200", "content", "application/json", "schema", "patternProperties"), false, "retype", "seq-wrap", "str")
+		add(at("responses", "200"), false, "null", "")
+		add(at("responses"), false, "null", "")
+	})...)
+	return out
+}
+
+func regressionMutantsOf(spec string, build func(find func(keys ...string) []int, add func(path []int, key bool, fault string, args ...string))) []mutCase {
 	var doc yaml3.Node
-	if err := yaml3.Unmarshal([]byte(miniSpec), &doc); err != nil {
+	if err := yaml3.Unmarshal([]byte(spec), &doc); err != nil {
 		panic(err)
 	}
 	tree, _ := fromYAML(&doc, 0)
@@ -469,41 +528,15 @@ func regressionMutants() []mutCase {
 		}
 		return p
 	}
-	pa := find("paths", "/a/{id}")
-	pb := find("paths", "/b")
-	pet := find("components", "schemas", "Pet")
-	ref := find("paths", "/a/{id}", "get", "responses", "200", "content", "application/json", "schema", "$ref")
-	refHolder := ref[:len(ref)-1]
-	max := find("paths", "/a/{id}", "get", "parameters", "1", "schema", "maximum")
-	maxLen := find("components", "schemas", "Pet", "properties", "name", "maxLength")
 	var out []mutCase
 	add := func(path []int, key bool, fault string, args ...string) {
 		for _, arg := range args {
 			for _, strict := range []bool{false, true} {
-				out = append(out, mutCase{Inline: miniSpec, Path: path, Key: key, Fault: fault, Arg: arg, Strict: strict})
+				out = append(out, mutCase{Inline: spec, Path: path, Key: key, Fault: fault, Arg: arg, Strict: strict})
 			}
 		}
 	}
-	// /a%0a% style keys: fixed in 9f821d33 (uri.NormalizeEscapedPath), must stay clean
-	add(pb, true, "escape", "%", "%0a%", "%zz", "%0a%zz", "%e4%b8", "pre:%", "pre:%0a%", "%%", "%2", "%2f%", "%2F", "%25", "%e4%b8%96")
-	add(pa, true, "escape", "%0a%", "%", "pre:%0a%")
-	add(pet, false, "cycle", "replace-self", "allOf-self", "oneOf-self", "anyOf-self", "replace-root", "items-allOf-self")
-	add(refHolder, false, "cycle", "replace-root", "allOf-self")
-	add(ref, false, "cycle", "self", "parent", "grandparent", "root")
-	add(ref, false, "dangling", "missing", "suffix", "empty-frag", "no-hash", "bad-escape", "tilde", "slash-end")
-	add(pet, false, "deep", deepVariants...)
-	add(max, false, "num", "-1", "1e400", "99999999999999999999", "x", "1.5", "-0", "1e-400", "9223372036854775808")
-	add(maxLen, false, "num", "-1", "1e400", "99999999999999999999", "x", "1.5", "-0", "9223372036854775808")
-	add(nil, false, "retype", "seq-wrap", "str", "seq-empty")
-	add(nil, false, "null", "")
-	add(find("paths"), false, "retype", "seq-wrap", "str")
-	add(find("paths"), false, "null", "")
-	add(find("components"), false, "null", "")
-	add(find("components", "schemas"), false, "retype", "seq-wrap")
-	add(find("paths", "/a/{id}", "get", "operationId"), false, "dupname", "")
-	add(find("paths", "/a/{id}", "get", "parameters", "1", "name"), false, "dupname", "")
-	add(pet, true, "empty", "")
-	add(pet, false, "delete", "")
+	build(find, add)
 	return out
 }
 
@@ -559,8 +592,11 @@ func TestMutants(t *testing.T) {
 	}
 	u.Set("bases_sampled", len(bases))
 	var regress []mutCase
-	if shard, _ := vk.Shard(); shard == 0 {
-		regress = regressionMutants()
+	shard, shards := vk.Shard()
+	for i, c := range regressionMutants() {
+		if i%shards == shard {
+			regress = append(regress, c)
+		}
 	}
 	if vk.Tier() == "quick" || vk.InReplay() {
 		vk.Rapid(u, 3200, regress, drawMutant(bases), check)
@@ -657,5 +693,3 @@ func enumerateMutants(u *vk.Unit, check func(mutCase) *vk.Finding) {
 	u.LabelN("enumerated-exhaustive-bases", enumerated)
 	u.LabelN("enumerated-sampled-big-bases", sampled)
 }
-
-var _ = json.Marshal
